@@ -72,6 +72,7 @@ type offered struct {
 	HeaderOK bool // header member was absent or a string->string object
 	Transfer string // the transfer member of that response exactly as sent ("" when omitted or not a string)
 	Proto    string // the transfer protocol that response therefore offers its actions for: basic | tus | custom (protocolOf)
+	Authd    bool   // the response entry carried "authenticated": true (the JSON literal, as sent)
 }
 
 // protocolOf: batch.md - "transfer: String identifier of the transfer adapter that the server prefers.  This MUST be one of the
@@ -151,6 +152,7 @@ type scenarioFacts struct {
 	BadAlgoSeen bool
 	Rewrite     *rewriteFacts             // client URL rewriting configuration (nil: none)
 	TusOffsets  map[string]map[int64]bool // wire URL of a tus upload href -> every Upload-Offset the server answered to a HEAD on it
+	Action401   bool                      // an action endpoint (storage / verify) answered 401 at some point of this execution
 }
 
 // agentMarker is the header by which the scripted custom transfer agent of part transfer-seq marks the requests IT makes
@@ -450,7 +452,7 @@ func validateBatch(v *viols, cc *clauseCounter, ss *schemaSet, r *req, f *scenar
 			// the caller asks about an object by (oid, size): the size recorded in the pointer it read, or the length of the object file it found
 			cc.add("object-size-as-asked")
 			if !sizes[n] {
-				v.add("doc:batch:size-wrong", fmt.Sprintf("batch request: object %s is named with size %d, the caller asked about it with size %v (batch.md: size - Integer byte size of the LFS object)", oid, n, sizeList(sizes)), reqSummary(r))
+				v.add("doc:batch:size-wrong", fmt.Sprintf("batch request: object %s is named with size %d, the caller asked about it with size %v (an empty list: the only pointer naming it carries a size field beyond int64, so no size can be asked with) (batch.md: size - Integer byte size of the LFS object)", oid, n, sizeList(sizes)), reqSummary(r))
 			}
 		}
 	}
@@ -819,6 +821,56 @@ func validateNonAPI(v *viols, cc *clauseCounter, r *req, f *scenarioFacts) {
 		match = cands[0]
 		for _, m := range bestMiss {
 			v.add("action-header:"+match.Rel+":"+headerClass(m.k), fmt.Sprintf("%s action carries header %s: %q, the request has %q", match.Rel, m.k, m.want, m.got), reqSummary(r))
+		}
+	}
+	// authenticated (batch.md: "authenticated - Optional boolean specifying whether the request for this specific object is
+	// authenticated.  If omitted or false, Git LFS will attempt to find credentials for this URL."): an entry marked
+	// authenticated:true offers its actions to be used with exactly the href and header it gives - the client does not look for
+	// credentials of its own, so the request carries the Authorization the action offered and no other (none if it offered none).
+	// Judged only when EVERY offer of this href was marked authenticated:true and no action endpoint answered 401 in this
+	// execution (what a client may do after the action endpoint itself demanded credentials is not specified).
+	cc.add("action-authenticated")
+	allAuthd := true
+	for _, o := range sameHref {
+		if !o.Authd {
+			allAuthd = false
+		}
+	}
+	got := r.hvalues("Authorization")
+	switch {
+	case !allAuthd:
+		if len(got) > 0 {
+			cc.add("action-authenticated:false-or-omitted:request-has-authorization")
+		} else {
+			cc.add("action-authenticated:false-or-omitted:request-without-authorization")
+		}
+	case f.Action401:
+		cc.add("action-authenticated:true:not-judged-after-401-from-action-endpoint")
+	default:
+		cc.add("action-authenticated:true")
+		if len(got) > 0 {
+			offeredIt := false
+			var wants []string
+			for _, o := range sameHref {
+				if !o.HeaderOK {
+					offeredIt = true // malformed header member: what it offers is undefined
+				}
+				for k, want := range o.Header {
+					if strings.EqualFold(k, "Authorization") {
+						wants = append(wants, want)
+						if len(got) == 1 && got[0] == want {
+							offeredIt = true
+						}
+					}
+				}
+			}
+			if offeredIt {
+				cc.add("action-authenticated:true:authorization-is-the-offered-one")
+			} else {
+				v.add("action-header:"+match.Rel+":unoffered-authorization", fmt.Sprintf("the batch response marked object %s as authenticated:true and its %s action (href %s) offered the Authorization values %q; the %s request carries Authorization %q, which no offer of that href contained (batch.md: only when authenticated is omitted or false does Git LFS look for credentials for this URL)", match.Oid, match.Rel, scrub(match.Href), wants, r.Method, got), reqSummary(r))
+			}
+		} else {
+			cc.add("action-authenticated:true:request-without-authorization")
 		}
 	}
 	cc.add("hash-algo-storage")
